@@ -12,7 +12,8 @@ ID = "C19"
 LEVEL = "exploration"
 RULE = ("2-7 commands, some internal ('!'), each with a random set of earlier commands as parents (chains, forests, "
         "diamonds, an ancestor named together with its descendant, a parent named twice), 0-2 prefix-free options "
-        "per command parser (flags and valued), one option on the ArgParser itself, explicit or implicit default "
+        "per command parser (flags and valued) and sometimes an on/off pair sharing one destination, command names "
+        "sometimes containing a dash, one option on the ArgParser itself, explicit or implicit default "
         "command; for every (command, option): argument vector [command, option(, value)] and, for the default "
         "command, the vector without the command name (a third of the option values are spelled like a "
         "declared command name); standard --color[=x] / --no-color / -v on every command. "
@@ -38,7 +39,8 @@ TECHNIQUE = "runtime monitoring: transitive-closure oracle over generated comman
 
 def gen_graph(rng):
     k = rng.randint(2, 7)
-    names = ["c%d" % i for i in range(k)]
+    dashed = rng.random() < 0.3
+    names = [("c-%d" if (dashed and rng.random() < 0.6) else "c%d") % i for i in range(k)]
     internal = {nm for nm in names if rng.random() < 0.25}
     if len(internal) == k:
         internal.discard(names[0])
@@ -60,6 +62,10 @@ def gen_graph(rng):
     for nm in names:
         for j in range(rng.randint(0, 2)):
             opts.append(("--p-%s-%d" % (nm, j), nm, rng.random() < 0.5))
+        if rng.random() < 0.3:
+            # an on/off pair writing to one destination
+            opts.append(("--on-%s" % nm, nm, "on:sw_" + nm.replace("-", "_")))
+            opts.append(("--off-%s" % nm, nm, "off:sw_" + nm.replace("-", "_")))
     opts.append(("--g-0", None, True))
     return dict(names=names, internal=sorted(internal), parents=parents, cmds=cmds, real=real, dflt=dflt, opts=opts)
 
@@ -93,6 +99,10 @@ def judge(ctx, g, case):
                            default_command=g['dflt'], prog="t")
             for o, owner, flag in g['opts']:
                 kw = {'action': 'store_true'} if flag else {}
+                if isinstance(flag, str):
+                    onoff, dest = flag.split(":")
+                    kw = {'action': 'store_true' if onoff == "on" else 'store_false', 'dest': dest,
+                          'default': None}
                 if owner is None:
                     ap.add_argument(o, **kw)
                 else:
@@ -108,6 +118,7 @@ def judge(ctx, g, case):
             for without_cmd in ((False, True) if cmd == exp_default else (False,)):
                 # the value of an option may be spelled like a declared command or option-set name
                 val = "val" if (hash((cmd, o)) % 3) else g['names'][hash((o, cmd)) % len(g['names'])]
+                paired = isinstance(flag, str)
                 argv = ([] if without_cmd else [cmd]) + [o] + ([] if flag else [val])
                 should = owner is None or owner == cmd or owner in anc[cmd]
                 ctx.count("command_option_decisions")
@@ -134,8 +145,9 @@ def judge(ctx, g, case):
                     continue
                 ctx.count("accepted" if ok else "rejected")
                 if ok:
-                    attr = o[2:].replace('-', '_')
-                    if getattr(ns, attr, None) not in ((True,) if flag else (val,)):
+                    attr = flag.split(":")[1] if paired else o[2:].replace('-', '_')
+                    want_vals = ((flag.startswith("on:"),) if paired else (True,) if flag else (val,))
+                    if getattr(ns, attr, "<missing>") not in want_vals:
                         problems.append(("accepted-option-not-in-namespace", {"argv": argv}))
                     if ns.command != cmd:
                         problems.append(("wrong-command-recorded", {"argv": argv, "command": ns.command,
